@@ -149,6 +149,46 @@ theorem payload_line_detects_removal (x y : List Char) (c : Char) (hc : isWs c =
   rw [reduce_line_comment, reduce_line_comment]
   exact filter_erase_ne x y c hc
 
+/-- The payload of a comment that says something is never empty — whatever its opener looks like
+(`/*`, `/**`, `/***…`, `/*!`): a terminated block comment whose body has a character that is
+neither white space nor `/ * !` yields at least that character.  So the safety net cannot take
+"the comment is gone" for "nothing changed".  (rustc_lexer calls `/***…` and `/**/` ordinary
+comments although they begin like doc comments; `rfverif c03` checks the real
+`changed_comment_content(comment, "")` on every such comment through the oracle `dropIsNoticed`.) -/
+theorem payload_nonempty_of_text_block (body : List Char) (c : Char) (hc : c ∈ body)
+    (ht : isText c = true) :
+    ∃ p, payload? ('/' :: '*' :: (body ++ ['*', '/'])) = some p ∧ p ≠ [] := by
+  obtain ⟨b', hb, hkeep⟩ := removeCommentHeader_block_text body
+  simp only [payload?, hb, Option.map_some]
+  exact ⟨_, rfl, reduce_yields_text _ b' _ c (hkeep c hc ht) ht⟩
+
+/-- The same for line comments (`//`, `///`, `////…`, `//!`). -/
+theorem payload_nonempty_of_text_line (body : List Char) (c : Char) (hc : c ∈ body)
+    (ht : isText c = true) :
+    ∃ p, payload? ('/' :: '/' :: body) = some p ∧ p ≠ [] := by
+  obtain ⟨b', hb, hkeep⟩ := removeCommentHeader_line_text body
+  simp only [payload?, hb, Option.map_some]
+  exact ⟨_, rfl, reduce_yields_text _ b' _ c (hkeep c hc ht) ht⟩
+
+example : payload? "/*** c03 banner ***/".toList = some "*c03banner**".toList := by decide
+example : payload? "/****\n * boxed *\n ****/".toList = some "**boxed*".toList := by decide
+
+/-- Without text the payload can be empty: such comments (`/**/`, `/***/`, a bare gutter) are
+invisible to the safety net, which is why they can vanish at the positions it guards (finding
+C03-E1). -/
+theorem payload_empty_counterexample :
+    payload? "/**/".toList = some [] ∧ payload? "/***/".toList = some [] ∧
+    payload? "/*\n *\n */".toList = some [] ∧ payload? "//".toList = some [] := by decide
+
+/-- The oracle on the real `changed_comment_content(comment, "")`: accepted exactly when a comment
+with text is reported as a change. -/
+theorem dropIsNoticed_iff (comment : List Char) (changed : Bool) :
+    dropIsNoticed comment changed = true ↔ (hasText comment = true → changed = true) := by
+  cases h : hasText comment <;> cases changed <;> simp [dropIsNoticed, h]
+
+example : dropIsNoticed "/*** c ***/".toList false = false := by decide
+example : dropIsNoticed "/**/".toList false = true := by decide
+
 /-! ## 3. The safety net -/
 
 /-- `changed_comment_content` answers "unchanged" exactly when both comment payloads can be
